@@ -1,24 +1,32 @@
 (* C17 lemmas about the definitions of Model/C17_Model.v (the ones C17_agree evaluates). *)
 From Coq Require Import ZArith QArith Qminmax Qabs List Bool Lia Lqa Setoid Morphisms.
 From FV Require Import Common.ListX Common.CMonoid Common.NanQ Common.QVec Model.C17_Model.
+From FV Require gen.Gen_c17_agnostic gen.Gen_c17_hyp_cluster gen.Gen_c17_apfl gen.Gen_c17_mime_lite gen.Gen_c17_optimizers gen.Gen_tree_util.
 Import ListNotations.
 Local Open Scope Q_scope.
 
 (* ---------------- exponentiated gradient keeps the simplex ---------------- *)
+Lemma map2_max_zero m : map2 Qmax m (map (fun _ : Q => 0) m) = map (fun p => Qmax p 0) m.
+Proof. induction m as [|x m IH]; cbn; [reflexivity|]. rewrite IH. reflexivity. Qed.
+
+Lemma eg_raw_spec w e : eg_raw w e = map (fun p => Qmax p 0) (map2 Qmult w e).
+Proof. unfold eg_raw. apply map2_max_zero. Qed.
+
 Lemma eg_raw_nonneg w e : Forall (fun x => 0 <= x) (eg_raw w e).
-Proof. unfold eg_raw. apply Forall_forall. intros x H. apply in_map_iff in H as (y & <- & _). apply Q.le_max_l. Qed.
+Proof. rewrite eg_raw_spec. apply Forall_forall. intros x H. apply in_map_iff in H as (y & <- & _). apply Q.le_max_r. Qed.
 
 Lemma eg_raw_pos : forall w e, length w = length e ->
   Forall (fun x => 0 <= x) w -> Forall (fun x => 0 < x) e -> 0 < qsum w -> 0 < qsum (eg_raw w e).
 Proof.
+  intros w e. rewrite eg_raw_spec. revert e.
   induction w as [|x w IH]; intros [|y e] L Hw He S; cbn in *; try discriminate; try lra.
   inversion Hw; subst. inversion He; subst.
-  pose proof (qsum_nonneg _ (eg_raw_nonneg w e)) as N. unfold eg_raw in N.
+  pose proof (qsum_nonneg _ (eg_raw_nonneg w e)) as N. rewrite eg_raw_spec in N.
   destruct (Qlt_le_dec 0 x) as [P|P].
-  - assert (0 < x * y) by nra. pose proof (Q.le_max_r 0 (x * y)). lra.
+  - assert (0 < x * y) by nra. pose proof (Q.le_max_l (x * y) 0). lra.
   - assert (x == 0) by lra. assert (0 < qsum w) by lra.
-    specialize (IH e ltac:(lia) H2 H4 H0). unfold eg_raw in IH.
-    pose proof (Q.le_max_l 0 (x * y)). lra.
+    specialize (IH e ltac:(lia) H2 H4 H0).
+    pose proof (Q.le_max_r (x * y) 0). lra.
 Qed.
 
 Lemma qsum_div l s : qsum (map (fun x => x / s) l) == qsum l / s.
@@ -38,7 +46,7 @@ Qed.
 Definition simplex (w : list Q) : Prop := Forall (fun x => 0 <= x) w /\ qsum w == 1.
 
 Lemma eg_update_length w e : length w = length e -> length (eg_update w e) = length w.
-Proof. intros L. unfold eg_update, eg_raw. rewrite !map_length, map2_length. lia. Qed.
+Proof. intros L. unfold eg_update. cbv zeta. rewrite eg_raw_spec, !map_length, map2_length. lia. Qed.
 
 Lemma eg_run_simplex es : forall w, simplex w ->
   Forall (fun e => length e = length w /\ Forall (fun x => 0 < x) e) es -> simplex (eg_run w es).
@@ -53,25 +61,26 @@ Qed.
 
 (* ---------------- the sliding window ---------------- *)
 Lemma window_update_length {A} (win : list A) x : (1 <= length win)%nat -> length (window_update win x) = length win.
-Proof. destruct win; cbn; [lia|]. intros _. rewrite app_length. cbn. lia. Qed.
+Proof. unfold window_update, Gen_c17_agnostic.window_shift. destruct win; cbn; [lia|]. intros _. rewrite app_length. cbn. lia. Qed.
 
 Lemma window_run_spec {A} (hist : list A) : forall init, (1 <= length init)%nat ->
   length (window_run init hist) = length init /\
   window_run init hist = skipn (length hist) (init ++ hist).
 Proof.
-  induction hist as [|x h IH]; intros init L; cbn.
-  - rewrite app_nil_r. split; reflexivity.
+  induction hist as [|x h IH]; intros init L.
+  - cbn. rewrite app_nil_r. split; reflexivity.
   - destruct init as [|a t]; [cbn in L; lia|].
     assert (L' : (1 <= length (window_update (a :: t) x))%nat) by (rewrite window_update_length; cbn; lia).
-    destruct (IH _ L') as [I1 I2]. unfold window_run in *. cbn [fold_left]. split.
-    + rewrite I1. apply window_update_length. cbn; lia.
-    + rewrite I2. unfold window_update. cbn [tl app skipn]. rewrite <- app_assoc. reflexivity.
+    destruct (IH _ L') as [I1 I2]. unfold window_run in *. cbn [fold_left length]. split.
+    + rewrite I1. rewrite window_update_length by (cbn; lia). reflexivity.
+    + rewrite I2. unfold window_update, Gen_c17_agnostic.window_shift. cbn [skipn app].
+      rewrite <- app_assoc. reflexivity.
 Qed.
 
 (* ---------------- APFL: the unit box ---------------- *)
 Lemma clip01_box x : 0 <= clip01 x <= 1.
 Proof.
-  unfold clip01. split.
+  unfold clip01, Gen_c17_apfl.apfl_clip_lo, Gen_c17_apfl.apfl_clip_hi. split.
   - apply Q.min_glb; [apply Q.le_max_r | lra].
   - apply Q.le_min_r.
 Qed.
@@ -238,11 +247,11 @@ Qed.
 Lemma cluster_no_examples K dim cl k : (k < K)%nat ->
   Forall (fun c => snd (fst c) == 0) (own k cl) -> nth k (cluster_deltas K dim cl) None = None.
 Proof.
-  intros H F. rewrite cluster_delta_own by exact H. unfold cluster_delta.
+  intros H F. rewrite cluster_delta_own by exact H. unfold cluster_delta, Gen_c17_hyp_cluster.cluster_delta_gen.
   assert (Z0 : snd (fold_left own_step (own k cl) (vzero dim, 0)) == 0).
   { rewrite own_step_count. cbn. rewrite qsum_zero; [ring|].
     apply Forall_forall. intros x Hx. apply in_map_iff in Hx as (c & <- & Hc). rewrite Forall_forall in F. exact (F c Hc). }
-  destruct (Qltb 0 _) eqn:C; [|reflexivity]. apply Qltb_lt in C. lra.
+  destruct (Qltb 0 (snd (fold_left own_step (own k cl) (vzero dim, 0)))) eqn:C; [|reflexivity]. apply Qltb_lt in C. lra.
 Qed.
 
 Lemma empty_cluster_untouched {S} (opt : vec -> S -> vec -> S * vec) K dim cl k s p : (k < K)%nat ->
@@ -335,3 +344,52 @@ Proof.
   apply in_map_iff. exists x. auto.
 Qed.
 End IgnoreProofs.
+
+(* ---------------- tie to the source: translated kernels (tools/anchors/c17_algorithms.py) ---------------- *)
+Lemma map2_lift2 (f : Q -> Q -> Q) a : forall b,
+  map2 (NanQ.lift2 f) (map Some a) (map Some b) = map Some (map2 f a b).
+Proof. induction a as [|x a IH]; intros [|y b]; cbn; auto. rewrite IH. reflexivity. Qed.
+
+(* the 'eg' branch of update_domain_weights as translated, on finite inputs whose raw weights do not sum
+   to zero, IS eg_update (e standing for exp(lr * loss)) *)
+Lemma eg_matches_code w e : ~ qsum (eg_raw w e) == 0 ->
+  Gen_c17_agnostic.update_domain_weights_eg (map Some w) (map Some e) = map Some (eg_update w e).
+Proof.
+  intros NZ. unfold Gen_c17_agnostic.update_domain_weights_eg, eg_update. cbv zeta.
+  change NanQ.mul with (NanQ.lift2 Qmult). change NanQ.max with (NanQ.lift2 Qmax).
+  rewrite map2_lift2.
+  replace (map (fun _ : NanQ.t => NanQ.zero) (map Some (map2 Qmult w e))) with (map Some (map (fun _ : Q => 0) (map2 Qmult w e)))
+    by (rewrite !map_map; reflexivity).
+  rewrite map2_lift2. fold (eg_raw w e).
+  rewrite NanQ.sum_Some, <- qsum_fold_right, !map_map. apply map_ext. intros x. apply NanQ.div_Some. exact NZ.
+Qed.
+
+(* tree_clip_by_global_norm as translated (gen/Gen_tree_util.v), with the norm supplied: IS clip_delta *)
+Lemma clip_matches_code (l2 : list NanQ.t -> NanQ.t) bound d n : 0 <= bound -> l2 (map Some d) = Some n ->
+  Gen_tree_util.tree_clip_by_global_norm l2 (map Some d) (Some bound) = map Some (clip_delta bound d n).
+Proof.
+  intros Hb HN. unfold Gen_tree_util.tree_clip_by_global_norm, clip_delta, clip_scale, vscale. cbv zeta. rewrite HN.
+  unfold NanQ.gtb, NanQ.ltb. destruct (Qltb bound n) eqn:E; cbn [NanQ.where_].
+  - apply Qltb_lt in E. rewrite NanQ.div_Some by lra. rewrite !map_map. reflexivity.
+  - rewrite !map_map. reflexivity.
+Qed.
+
+(* the structural facts the model relies on, as found in the source on this run *)
+Lemma code_structure :
+  Gen_c17_agnostic.server_update_passes_weights_through = true /\
+  Gen_c17_hyp_cluster.accumulate_into_assigned_cluster = true /\
+  Gen_c17_hyp_cluster.assignment_is_argmin = true /\
+  Gen_c17_mime_lite.clip_before_aggregate = true /\ Gen_c17_mime_lite.clip_uses_global_norm = true /\
+  Gen_c17_mime_lite.mean_is_rescaled_again = false /\
+  Gen_c17_apfl.clip_follows_optimizer_step = true /\ Gen_c17_apfl.table_is_copied_then_set = true /\
+  Gen_c17_apfl.apfl_clip_lo == 0 /\ Gen_c17_apfl.apfl_clip_hi == 1 /\
+  Gen_c17_optimizers.ignore_masks_named_to_none = true /\ Gen_c17_optimizers.ignore_restores_named_from_input = true.
+Proof. repeat split; reflexivity. Qed.
+
+Lemma model_uses_translated_code :
+  (forall A (win : list A) x, window_update win x = Gen_c17_agnostic.window_shift win x) /\
+  (forall S (opt : vec -> S -> vec -> S * vec) d s p,
+     hyp_server_step opt d s p = Gen_c17_hyp_cluster.hyp_server_step_gen opt d s p) /\
+  (forall st, cluster_delta st = Gen_c17_hyp_cluster.cluster_delta_gen (fun s n => vscale (/ n) s) (fst st) (snd st)) /\
+  (forall x, clip01 x = Qmin (Qmax x Gen_c17_apfl.apfl_clip_lo) Gen_c17_apfl.apfl_clip_hi).
+Proof. repeat split; reflexivity. Qed.
